@@ -47,26 +47,31 @@ func installFailpoint() {
 
 // Cfg configures a signing history.
 type Cfg struct {
-	NMembers       int
-	Threshold      uint64
-	MaxDESize      uint64
-	SigningPeriod  uint64
-	MaxAttempts    uint64
-	FeePerSigner   sdk.Coins
-	Blocks         int
-	PSubmit        int  // % chance an assigned member submits in a given block
-	LazyMembers    int  // members that never submit signatures (force time-outs)
-	Hostile        bool // corrupted / misplaced partial signatures
-	FailpointPct   int  // % of signing-member assignments that fail after the DE dequeue
-	FailpointMode  int  // 0 error, 1 panic on end-block paths
-	ParamChanges   bool // change tss params mid history
-	DEOps          bool // resets, over-limit submissions
-	Inflation      bool
-	InitialDEs     int
-	ReqPerBlockPct int
-	MaxGroupSize   uint64
-	CreationPeriod uint64
-	PoorRequester  int64 // if > 0 the last requester keeps only this many uband
+	NMembers           int
+	Threshold          uint64
+	MaxDESize          uint64
+	SigningPeriod      uint64
+	MaxAttempts        uint64
+	FeePerSigner       sdk.Coins
+	Blocks             int
+	PSubmit            int  // % chance an assigned member submits in a given block
+	LazyMembers        int  // members that never submit signatures (force time-outs)
+	Hostile            bool // corrupted / misplaced partial signatures
+	FailpointPct       int  // % of signing-member assignments that fail after the DE dequeue
+	FailpointMode      int  // 0 error, 1 panic on end-block paths
+	ParamChanges       bool // change tss params mid history
+	DEOps              bool // resets, over-limit submissions
+	Inflation          bool
+	InitialDEs         int
+	ReqPerBlockPct     int
+	MaxGroupSize       uint64
+	CreationPeriod     uint64
+	Replicas           int // number of mirror replicas fed the same blocks
+	ReplicasConcurrent bool
+	GenesisExtra       func(w *sim.World, gs band.GenesisState)
+	NumVals            int
+	ExtraUsers         int
+	PoorRequester      int64 // if > 0 the last requester keeps only this many uband
 }
 
 // TxRec is one generated transaction with its result.
@@ -170,6 +175,8 @@ type Hist struct {
 	ParamChangedAt []int64
 	sentSig        map[string]bool
 	oldSigs        []*tsstypes.MsgSubmitSignature
+	// BlockErrKey lets a check derive the violation key of a failed FinalizeBlock.
+	BlockErrKey func(err string) string
 	// Extra lets a check add its own txs to every block (called before the shuffle).
 	Extra func(h *Hist, ops *[]*TxRec)
 	// Between is called between blocks, before generation (authority actions).
@@ -204,8 +211,12 @@ func NewHist(run *sim.Run, label string, caseID int, cfg Cfg, mons func(h *Hist)
 	rng := sim.NewRng(uint64(run.Seed)).Derive(fmt.Sprintf("%s-%d", label, caseID))
 	chainID := fmt.Sprintf("band-%s-%d-%d", label, run.Seed, caseID)
 	var tp tsstypes.Params
+	nv := cfg.NumVals
+	if nv == 0 {
+		nv = 3
+	}
 	w := sim.NewWorld(sim.Config{
-		Seed: rng.U64(), ChainID: chainID, NumVals: 3, NumUsers: cfg.NMembers + 3, NoInflation: !cfg.Inflation,
+		Seed: rng.U64(), ChainID: chainID, NumVals: nv, NumUsers: cfg.NMembers + 3 + cfg.ExtraUsers, NoInflation: !cfg.Inflation,
 		Genesis: func(w *sim.World, gs band.GenesisState) {
 			cdc := w.App.AppCodec()
 			var bg bandtsstypes.GenesisState
@@ -227,11 +238,18 @@ func NewHist(run *sim.Run, label string, caseID int, cfg Cfg, mons func(h *Hist)
 			}
 			tp = tg.Params
 			gs[tsstypes.ModuleName] = cdc.MustMarshalJSON(&tg)
+			if cfg.GenesisExtra != nil {
+				cfg.GenesisExtra(w, gs)
+			}
 		}})
+	for i := 0; i < cfg.Replicas; i++ {
+		w.AddMirror()
+	}
+	w.MirrorConcurrent = cfg.ReplicasConcurrent
 	h := &Hist{W: w, Run: run, Rng: rng, Case: caseID, Cfg: cfg, TssParams: tp,
 		Trk: &Tracker{Signings: map[uint64]*SigningT{}, Period: cfg.SigningPeriod}, lazy: map[string]bool{}, sentSig: map[string]bool{}}
 	h.TW = New(w, w.Users[:cfg.NMembers])
-	h.Req = w.Users[cfg.NMembers:]
+	h.Req = w.Users[cfg.NMembers : cfg.NMembers+3]
 	gid, err := h.TW.Bootstrap(h.TW.Members, cfg.Threshold, time.Second)
 	if err != nil {
 		w.Close()
@@ -364,6 +382,9 @@ func (h *Hist) gen() []*TxRec {
 				cnt = room + uint64(rng.Range(1, 2)) // over the limit
 			} else if cfg.DEOps && rng.Chance(1, 5) {
 				cnt = room // exactly to the limit
+			}
+			if cnt > 64 { // the limit parameter may have been raised to an extreme: keep txs small
+				cnt = 64
 			}
 			msg, des := m.MsgSubmitDEs(int(cnt))
 			h.add(&ops, "de:submit", m.Acc, msg, map[string]any{"n": cnt, "des": des})
@@ -608,9 +629,23 @@ func (h *Hist) Step() bool {
 		txs = append(txs, o.Bytes)
 	}
 	dt := time.Duration(h.Rng.Range(1, 4)) * time.Second
+	t0 := time.Now()
 	resp, err := w.Block(txs, dt)
 	if err != nil {
-		h.Violate("finalize-block-failed", err.Error())
+		key := "finalize-block-failed"
+		if h.BlockErrKey != nil {
+			key = h.BlockErrKey(err.Error())
+		}
+		msg := err.Error()
+		if be, ok := err.(*sim.BlockError); ok && be.Panic {
+			msg += "\n" + be.Stack
+		}
+		h.Violate(key, msg)
+		return false
+	}
+	if el := time.Since(t0); el > 60*time.Second {
+		// the only wall-clock verdict: a block normally takes milliseconds
+		h.Violate("block-did-not-terminate", fmt.Sprintf("block %d took %s", w.Height, el))
 		return false
 	}
 	b := &BlockObs{Height: w.Height, Time: w.Time, Resp: resp}
